@@ -269,7 +269,84 @@ def run_fallback(case):
     return res
 
 
-KINDS = {"data": run_data, "recovery": run_recovery, "fallback": run_fallback}
+def _boxes(d, n):
+    """three data sets of one shape in pairwise disjoint boxes of the unit cube"""
+    out = []
+    for k, law in enumerate(("gauss", "t2", "skew")):
+        X = make_data(d, n, law, 0.0)
+        U = (X - X.min(0)) / (X.max(0) - X.min(0))
+        out.append(0.05 + 0.3 * k + 0.25 * U)  # box k = [0.05+0.3k, 0.30+0.3k]^d
+    return out
+
+
+def run_reuse(case):
+    """Call histories on the fitting entry points: every ordered sequence (length 2..3) of three data sets in disjoint boxes, presented
+    either through ONE caller-owned buffer that is refilled between calls or through fresh arrays.  After every call the locations must lie
+    inside the bounding box of the data of THAT call and the result must equal the result of the same call on a private copy."""
+    from tempest.modes import ModeStatistics
+    from tempest.student import fit_mvstud
+
+    res = Res()
+    d, n = case["d"], case["n"]
+    sets = _boxes(d, n)
+    w = np.ones(n)
+    labelings = {"all-occupied": (np.arange(n) % 2, 2), "empty-last": (np.arange(n) % 2, 3), "empty-first": (1 + np.arange(n) % 2, 3), "one-cluster+2-empty": (np.zeros(n, dtype=int), 3)}
+
+    def entry(name, U):
+        with OwnedRandom(case["seed"]):
+            with np.errstate(all="ignore"):
+                if name == "fit_mvstud":
+                    mu, S, nu = fit_mvstud(U)
+                    return np.atleast_2d(mu), np.asarray(S)[None], np.atleast_1d(nu)
+                if name == "from_global":
+                    ms = ModeStatistics.from_global(U, w.copy())
+                else:
+                    lab, K = labelings[name]
+                    ms = ModeStatistics.from_particles(U, w.copy(), lab.copy(), n_modes=K)
+                return np.array(ms.means), np.array(ms.covariances), np.array(ms.degrees_of_freedom, dtype=float)
+
+    for name in ["fit_mvstud", "from_global"] + list(labelings):
+        if case.get("only") and case["only"] != name:
+            continue
+        try:
+            refs = [entry(name, sets[k].copy()) for k in range(3)]  # each data set on a private array, before any sequence
+        except Exception as e:
+            res.violate(f"reuse:{name}:raises:{type(e).__name__}", f"{name} raised {e!r} on a fresh array", dict(case, only=name))
+            continue
+        for seq in case["seqs"]:
+            for shared in (True, False):
+                buf = np.empty((n, d))
+                hist = []
+                for step, k in enumerate(seq):
+                    if shared:
+                        buf[...] = sets[k]
+                        arg = buf
+                    else:
+                        arg = sets[k].copy()
+                    hist.append(k)
+                    cc = dict(case, seqs=[list(seq[: step + 1])], only=name, shared=shared)
+                    if "shared" in case and case["shared"] != shared:
+                        continue
+                    try:
+                        mu, S, nu = entry(name, arg)
+                        mu2, S2, nu2 = refs[k]
+                    except Exception as e:
+                        res.violate(f"reuse:{name}:raises:{type(e).__name__}", f"{name} raised {e!r} on data set {k} after data sets {hist[:-1]} (buffer {'re-used' if shared else 'fresh'})", cc)
+                        break
+                    res.evals += 1
+                    res.trans += 1
+                    lo, hi = sets[k].min(0), sets[k].max(0)
+                    tag = f"{name} on data set #{k} (box [{0.05 + 0.3 * k:.2f},{0.30 + 0.3 * k:.2f}]^{d}, n={n}) after calls on data sets {hist[:-1]}, {'one caller-owned buffer refilled between calls' if shared else 'fresh arrays'}"
+                    if not np.all(np.isfinite(mu)) or np.any(mu < lo - 1e-9) or np.any(mu > hi + 1e-9):
+                        res.violate("reuse:location-outside-current-data", f"{tag}: locations {mu.tolist()} are not all inside the bounding box of the data passed to this call", cc)
+                    elif not (np.array_equal(mu, mu2) and np.array_equal(S, S2) and np.array_equal(nu, nu2)):
+                        res.violate("reuse:differs-from-private-copy", f"{tag}: result differs from the same call on a private copy of the same data (locations {mu.tolist()} vs {mu2.tolist()}, dof {nu.tolist()} vs {nu2.tolist()})", cc)
+                    res.outcome((name, tuple(seq[: step + 1]), shared, d, n), nontrivial=step > 0)
+    res.states += 1
+    return res
+
+
+KINDS = {"reuse": run_reuse, "data": run_data, "recovery": run_recovery, "fallback": run_fallback}
 
 
 def plan(ctx):
@@ -289,6 +366,12 @@ def plan(ctx):
     ctx.explore("recovery", rec)
     fb = [{"kind": "fallback", "d": d, "n": n, "seed": ctx.seed} for d in (1, 2, 3) for n in (40, 200)]
     agg = ctx.explore("dof-fallback", fb)
+    import itertools as _it
+    seqs = [list(p) for r in (2, 3) for p in _it.product(range(3), repeat=r) if len(set(p)) > 1]
+    ru = [{"kind": "reuse", "d": d, "n": n, "seed": ctx.seed, "seqs": seqs, "only": name} for d in (1, 2, 3) for n in ((24, 60) if th else (24,))
+          for name in ("fit_mvstud", "from_global", "all-occupied", "empty-last", "empty-first", "one-cluster+2-empty")]
+    ctx.bounds["call_history_sequences"] = len(seqs)
+    ctx.explore("call-histories-and-buffer-reuse", ru)
     ctx.bounds.update({"dims": [1, 2, 3, 5, 8], "sizes": "4d,10d,50d(,2000)", "laws": laws, "rho": [0, 0.9, -0.99], "data_sets": len(cases), "recovery_cases": len(rec)})
     if not agg.extra.get("fallback_engaged"):
         ctx.notes.append("no fallback case had a non-finite fitted nu under this tape")
